@@ -19,6 +19,20 @@ CLAIMS = {
          "Execute/CommandHandler/UnknownOptionHandler are user callbacks (assumed not to touch parser state); checkRequired/clearDefault/estimateCommand are assumed contracts"),
  "C10": ("addArgs head-of-queue binding (k-th token converted into the k-th pending positional, a slice-typed head absorbs the rest) over the ghost trace of convert, fillParseState copies c.args in order, parseNonOption prefers pending positionals",
          "convert itself and the construction of c.args by scanSubcommandHandler are assumed"),
+ "C05": ("the four-flag state machine: Set, setDefault, clearDefault (environment over default tags, split on the delimiter, emptied first) and EnvKeyWithNamespace against the recursive env-namespace spec; IniParser.parse raises clearReferenceBeforeSet on every option before applying entries",
+         "the position of the two eachOption passes in ParseArgs relative to the argument loop is only partly a postcondition; os.LookupEnv/strings.Split are assumed; the store itself (convert/empty/call) is represented by ghost traces"),
+ "C06": ("checkRequired: a nil result implies that no option of the active chain is required-and-unset and no pending positional is unmet by the documented rules; an error is ErrRequired and recorded; ParseArgs dispatches only after checkRequired returned nil",
+         "the converse (an error implies something is really missing, i.e. unselected commands are never demanded) and the content of the message are not mechanised; the active chain is a ghost sequence with trusted finiteness"),
+ "C11": ("convert per kind: the strconv parser is called with the width of the field's type and the base of the tag, the parsed value is what is stored (ghost trace of reflect Set*), nothing is stored on error; getBase; choice rejection in Set",
+         "strconv/time parsers, reflect and custom Unmarshalers are assumed; slices, maps and pointers only get error propagation and safety (recursion through the contract), termination of the recursion is not proved"),
+ "C13": ("optionByName returns an option of maximal rank (ini-name > field name > namespaced long name > short name) among all groups below the section's group; matchingGroups; the value handed to Set/setDefault by IniParser.parse",
+         "first-of-equal-rank, groupByName/Find (section resolution) and the relational lemma ini-entry == flag are not mechanised"),
+ "C14": ("readFullLine/readIni/IniParser.parse: no index or nil panic for any byte sequence, termination for finite input, every *IniError carries the number of lines read so far and the file name, sections are registered in file order, ErrUnknownGroup only without IgnoreUnknown",
+         "bufio.Reader.ReadLine is assumed (finite input); that noise lines do not change other entries is read off the loop structure, not a separate lemma"),
+ "C17": ("wrapText: safety of every slice expression, termination, break positions 1 <= pos < width, and content preservation (the text without white space and hyphens is unchanged)",
+         "alignment (getAlignmentInfo / writeHelpOption / argument rows: the padding counts are non-negative) is not yet under contract - the byte/character defect there was repaired by a fix: commit but is not yet guarded by an obligation; nwd is a trusted ghost function"),
+ "C19": ("multiTag.scan against a recursive grammar of the tag text (keys, escapes inside quoted values, repeated keys in order, strconv.Unquote of each literal), safety for every string, ErrTag on every error exit",
+         "Get/GetMany/cached and the attribute mapping in scanStruct (which tag feeds which Option field), duplicate detection and short-name length are not yet under contract"),
  "C20": ("levenshtein proved equal to the Wagner-Fischer recurrence over rune sequences (table invariants), closestChoice returns the first minimum, visible/sorted command lists",
          "estimateCommand (threshold, message) is an assumed contract; symmetry and d=0 iff equal are properties of the recurrence not proved as lemmas"),
 }
